@@ -20,9 +20,17 @@ import (
 	spb "google.golang.org/genproto/googleapis/rpc/status"
 )
 
+// respHandler is the registration of one call: responses are queued on ch;
+// done is closed when the call is unregistered or the connection fails, so
+// that nobody ever has to close (or send on a closed) ch.
+type respHandler struct {
+	ch   chan *goatorepo.Rpc
+	done chan struct{}
+}
+
 type RpcMultiplexer struct {
 	rw       types.RpcReadWriter
-	handlers map[uint64]chan *goatorepo.Rpc
+	handlers map[uint64]*respHandler
 
 	ctx    context.Context
 	cancel context.CancelFunc
@@ -37,7 +45,7 @@ type RpcMultiplexer struct {
 func NewRpcMultiplexer(rw types.RpcReadWriter) *RpcMultiplexer {
 	rm := &RpcMultiplexer{
 		rw:       rw,
-		handlers: make(map[uint64]chan *goatorepo.Rpc),
+		handlers: make(map[uint64]*respHandler),
 		codec:    encoding.GetCodecV2(proto.Name),
 	}
 
@@ -64,8 +72,8 @@ func (rm *RpcMultiplexer) closeError(err error) {
 
 	if err != nil {
 		rm.rErr = err
-		for id, ch := range rm.handlers {
-			close(ch)
+		for id, h := range rm.handlers {
+			close(h.done)
 			delete(rm.handlers, id)
 		}
 	}
@@ -85,7 +93,7 @@ func (rm *RpcMultiplexer) CallUnaryMethod(
 
 	streamId := atomic.AddUint64(&rm.streamCounter, 1)
 
-	respChan := make(chan *goatorepo.Rpc, 1)
+	respChan := newRespHandler()
 
 	if err := rm.registerHandler(streamId, respChan); err != nil {
 		return nil, err
@@ -104,35 +112,33 @@ func (rm *RpcMultiplexer) CallUnaryMethod(
 		return nil, err
 	}
 
-	select {
-	case resp, ok := <-respChan:
-		if !ok {
-			return nil, fmt.Errorf("respChan closed")
-		}
-		for _, sh := range statsHandlers {
-			headers, _ := internal.ToMetadata(resp.GetHeader().GetHeaders())
-
-			sh.HandleRPC(ctx, &stats.InHeader{
-				Client:     true,
-				FullMethod: header.Method,
-				Header:     headers,
-			})
-		}
-		if resp.Status != nil && resp.Status.Code != int32(codes.OK) {
-			return nil, status.FromProto(&spb.Status{
-				Code:    resp.Status.Code,
-				Message: resp.Status.Message,
-				Details: resp.Status.Details,
-			}).Err()
-		}
-		if resp.Body != nil {
-			return resp.Body, nil
-		}
-		return nil, fmt.Errorf("malformed response: no body or status")
-
-	case <-ctx.Done():
-		return nil, ctx.Err()
+	resp, ok, err := respChan.receive(ctx)
+	if err != nil {
+		return nil, err
 	}
+	if !ok {
+		return nil, fmt.Errorf("respChan closed")
+	}
+	for _, sh := range statsHandlers {
+		headers, _ := internal.ToMetadata(resp.GetHeader().GetHeaders())
+
+		sh.HandleRPC(ctx, &stats.InHeader{
+			Client:     true,
+			FullMethod: header.Method,
+			Header:     headers,
+		})
+	}
+	if resp.Status != nil && resp.Status.Code != int32(codes.OK) {
+		return nil, status.FromProto(&spb.Status{
+			Code:    resp.Status.Code,
+			Message: resp.Status.Message,
+			Details: resp.Status.Details,
+		}).Err()
+	}
+	if resp.Body != nil {
+		return resp.Body, nil
+	}
+	return nil, fmt.Errorf("malformed response: no body or status")
 }
 
 // NewStreamReadWriter returns a new goat.RpcReadWriter which will read and
@@ -149,7 +155,7 @@ func (rm *RpcMultiplexer) NewStreamReadWriter(
 
 	streamId := atomic.AddUint64(&rm.streamCounter, 1)
 
-	respChan := make(chan *goatorepo.Rpc, 1)
+	respChan := newRespHandler()
 	if err := rm.registerHandler(streamId, respChan); err != nil {
 		return 0, nil, nil, err
 	}
@@ -160,18 +166,17 @@ func (rm *RpcMultiplexer) NewStreamReadWriter(
 
 	rw := internal.NewFnReadWriter(
 		func(ctx context.Context) (*goatorepo.Rpc, error) {
-			select {
-			case rpc, ok := <-respChan:
-				if !ok {
-					if err := rm.readErrorIfDone(); err != nil {
-						return nil, err
-					}
-					return nil, fmt.Errorf("respChan closed")
-				}
-				return rpc, nil
-			case <-ctx.Done():
-				return nil, ctx.Err()
+			rpc, ok, err := respChan.receive(ctx)
+			if err != nil {
+				return nil, err
 			}
+			if !ok {
+				if err := rm.readErrorIfDone(); err != nil {
+					return nil, err
+				}
+				return nil, fmt.Errorf("respChan closed")
+			}
+			return rpc, nil
 		},
 		func(ctx context.Context, rpc *goatorepo.Rpc) error {
 			err := rm.rw.Write(ctx, rpc)
@@ -201,20 +206,53 @@ func (rm *RpcMultiplexer) readLoop() error {
 
 func (rm *RpcMultiplexer) handleResponse(rpc *goatorepo.Rpc) {
 	rm.mutex.Lock()
-	defer rm.mutex.Unlock()
+	h, ok := rm.handlers[rpc.GetId()]
+	rm.mutex.Unlock()
 
-	ch, ok := rm.handlers[rpc.GetId()]
 	if !ok {
 		// TODO: getting log lines from here after cancelling streams
 		log.Error().Msgf("Mux: unhandled Rpc %d", rpc.GetId())
 		return
 	}
-	ch <- rpc
+	// The registry lock is not held while waiting for room in the call's
+	// queue: a call that has stopped reading must not stop other calls from
+	// registering, unregistering or failing fast, and once it unregisters
+	// the envelope is dropped.
+	select {
+	case h.ch <- rpc:
+	case <-h.done:
+	}
+}
+
+func newRespHandler() *respHandler {
+	return &respHandler{
+		ch:   make(chan *goatorepo.Rpc, 1),
+		done: make(chan struct{}),
+	}
+}
+
+// receive waits for the next response, for the handler to be closed
+// (ok == false) or for ctx. A response queued before the handler was closed
+// is still returned.
+func (h *respHandler) receive(ctx context.Context) (rpc *goatorepo.Rpc, ok bool, err error) {
+	select {
+	case rpc := <-h.ch:
+		return rpc, true, nil
+	case <-h.done:
+		select {
+		case rpc := <-h.ch:
+			return rpc, true, nil
+		default:
+			return nil, false, nil
+		}
+	case <-ctx.Done():
+		return nil, false, ctx.Err()
+	}
 }
 
 // registerHandler fails if the read loop has already failed: a handler
 // registered after closeError has run would never be closed.
-func (rm *RpcMultiplexer) registerHandler(id uint64, c chan *goatorepo.Rpc) error {
+func (rm *RpcMultiplexer) registerHandler(id uint64, c *respHandler) error {
 	rm.mutex.Lock()
 	defer rm.mutex.Unlock()
 
@@ -230,8 +268,8 @@ func (rm *RpcMultiplexer) unregisterHandler(id uint64) {
 	rm.mutex.Lock()
 	defer rm.mutex.Unlock()
 
-	if ch, ok := rm.handlers[id]; ok {
-		close(ch)
+	if h, ok := rm.handlers[id]; ok {
+		close(h.done)
 	}
 
 	delete(rm.handlers, id)
